@@ -495,6 +495,15 @@ func (r *v2run) finish() {
 	}
 	r.emit(obs{E: "OC"})
 	synctest.Wait()
+	// C19: a closed Output() says "terminated": everything is quiescent now, so a goroutine of the library that is still there
+	// (waiting for a release, say) is a leftover.  What the consumer still holds is released afterwards in any case.
+	if n := moduleGoroutines(); n > 0 {
+		r.emit(obs{E: "Leak", K: n, Note: fmt.Sprintf("goroutines of the library remain after Output() closed (%d delivered items not released yet)", len(r.held))})
+	}
+	for len(r.held) > 0 {
+		r.release(r.held[0])
+	}
+	synctest.Wait()
 	for {
 		select {
 		case err, ok := <-r.d.Err():
